@@ -86,6 +86,9 @@ struct ReplyWorld : World {
 		       "\"stub\":[\"transport = send callback accepting or rejecting per plan\",\"allocator (ledger + n-th allocation fails)\",\"per-request bookkeeping (accepted at most once, id, reply mark)\"]}";
 	}
 	void gen(Rng &r, Plan &p, int tier) override {
+		// VERIF_ONLY_LAYER=n (experiments only, never set by bin/check): every plan is of that layer, to measure what one layer alone catches
+		static const char *only = getenv("VERIF_ONLY_LAYER");
+		if (only) { unsigned l = (unsigned) atoi(only); if (l == 1) gen_stream(r, p, tier); else if (l == 2) gen_conn(r, p, tier); else if (l == 3) gen_dgram(r, p, tier); else if (l == 4) { gen_conn(r, p, tier); p.set("layer", 4); } if (l >= 1 && l <= 4) return; }
 		if (r.chance(1, 3)) { unsigned l = (unsigned) r.below(7); if (l < 2) gen_stream(r, p, tier); else if (l < 4) gen_conn(r, p, tier); else if (l < 6) gen_dgram(r, p, tier); else { gen_conn(r, p, tier); p.set("layer", 4); } return; }
 		p.set("layer", 0);
 		p.set("ctxlen", r.chance(1, 5) ? r.range(9, 20) : r.range(1, 8));
